@@ -242,7 +242,7 @@ def _pv(s: str, i: int) -> Any:
         rec = {}
         while True:
             i = _ws(s, i)
-            m = re.compile(r"(\w+) \|-> ").match(s, i)
+            m = re.compile(r"(\w+)\s*\|->\s*").match(s, i)
             assert m, s[i: i + 40]
             i = m.end()
             v, i = _pv(s, i)
